@@ -430,7 +430,11 @@ RETCODE adfFileFlush ( struct AdfFile * const file )
         if ( isOFS ( file->volume->dosType ) ) {
             struct bOFSDataBlock *data = (struct bOFSDataBlock *) file->currentData;
             assert ( file->posInDataBlk <= file->volume->datablockSize );
-            data->dataSize = file->posInDataBlk;
+            /* valid bytes in this block: what is left of the file from the
+               block's start, at most a full block (not the current position) */
+            data->dataSize = min ( file->fileHdr->byteSize -
+                                   ( file->pos - file->posInDataBlk ),
+                                   file->volume->datablockSize );
         }
 
         rc = adfWriteDataBlock ( file->volume,
